@@ -11,7 +11,7 @@
    Class.parameters. *)
 From Coq Require Import List Arith Bool String.
 From Verif Require Import Lib.Sexp Model.C18_dataclass Model.C18_modes Model.C18_machine Model.C18_presented Model.C18_layout Gen.C18_flags
-  Proofs.C18_dataclass Proofs.C18_modes Proofs.C18_machine Proofs.C18_presented Proofs.C18_top Proofs.C18_order Proofs.C18_layout.
+  Proofs.C18_dataclass Proofs.C18_modes Proofs.C18_machine Proofs.C18_presented Proofs.C18_top Proofs.C18_order Proofs.C18_layout Proofs.C18_wrongorder.
 Import ListNotations.
 Open Scope list_scope. Open Scope nat_scope.
 
@@ -217,6 +217,40 @@ Theorem C18_session_needs_a_fresh_seen_set : forall m,
 Proof. exact processed_must_be_per_event. Qed.
 Print Assumptions C18_session_needs_a_fresh_seen_set.
 
+(* ---------------------------------------------------------------------------------------------------------------
+   LOADS IN ANY ORDER (a package loaded before the package its bases come from).  The table changes between events:
+   the same classes ([sim]: decorator, body, hand-written __init__), MRO lists over the packages loaded so far.
+   For EVERY history in which each class object is walked by one event: every class carries the stateless result on
+   the table OF ITS EVENT ... *)
+Theorem C18_session_any_order : forall md t0 paths evs,
+  (forall t ev, In (t, ev) evs -> sim t t0 /\ NoDup (map (fun j => nth j paths 0) ev)) ->
+  NoDup (flat_map snd evs) ->
+  forall t ev j c, In (t, ev) evs -> In j ev -> nth_error t j = Some c ->
+  s_member (session_tv md paths evs) j c = gm_init_member md t j c /\ s_labelled (session_tv md paths evs) j c = g_label t c.
+Proof. exact session_tv_spec. Qed.
+Print Assumptions C18_session_any_order.
+(* ... and Class.parameters read AFTER all the loads (members as the events left them, looked up along the final MRO) is
+   the stateless presented constructor of the final table, exactly when each class of the lookup list got at its event
+   the member it would get now (decidable; evaluated by the extracted model on every wrong-order case).  In particular
+   a class that inherits its constructor gets it as soon as the parent's package is loaded. *)
+Theorem C18_presented_after_loads : forall md t0 paths evs tfin i c,
+  (forall t ev, In (t, ev) evs -> sim t t0 /\ NoDup (map (fun j => nth j paths 0) ev)) ->
+  NoDup (flat_map snd evs) -> sim tfin t0 -> nth_error tfin i = Some c ->
+  (forall k, In k (i :: c_mro c) -> exists t ev, In (t, ev) evs /\ In k ev /\ gm_member_at md t k = gm_member_at md tfin k) ->
+  first_init (s_member_at (session_tv md paths evs) tfin) (i :: c_mro c) = gm_presented md tfin i c.
+Proof. exact presented_after_loads. Qed.
+Print Assumptions C18_presented_after_loads.
+(* non-vacuity, and the failure of the hypothesis: children loaded before their parent dataclass - the plain subclass
+   presents the parent's constructor afterwards, the decorated one keeps the __init__ synthesised without the parent *)
+Theorem C18_wrong_order_example : forall md,
+  first_init (s_member_at (session_tv md [0; 1; 2] wo_evs) wo_fin) [1; 0] = gm_presented md wo_fin 1 (cls_at wo_fin 1) /\
+  gm_presented md wo_fin 1 (cls_at wo_fin 1) = Some (0, Synth [mkp 0 PK false]) /\
+  first_init (s_member_at (session_tv md [0; 1; 2] wo_evs) wo_fin) [2; 0] = Some (2, Synth [mkp 1 PK true]) /\
+  gm_presented md wo_fin 2 (cls_at wo_fin 2) = Some (2, Synth [mkp 0 PK false; mkp 1 PK true]) /\
+  gm_member_at md wo_early 2 <> gm_member_at md wo_fin 2.
+Proof. exact wrong_order_computed. Qed.
+Print Assumptions C18_wrong_order_example.
+
 (* ===============================================================================================================
    WHAT THE EXTENSION CAN SEE WHEN THE EVENT FIRES (Model/C18_layout.v): module scopes after the visit and after
    expand_wildcards.  For ALL layouts (any modules, statements, star graph - cyclic or not - and any fuel):
@@ -260,6 +294,22 @@ Theorem C18_reexported_helpers_computed :
   recognised_h h_classvar true L_compat_star 2 = false.
 Proof. exact compat_computed. Qed.
 Print Assumptions C18_reexported_helpers_computed.
+(* finding C18-F12, exactly: the base name of a class resolves (in the final namespace of the module, the only one Griffe
+   has) to the class itself.  For all layouts it does whenever the member the module ends up with under that name is the
+   class itself - `class K0: ...; class K0(K0)`, `from base import K0; class K0(K0)` - and no later star import takes it over. *)
+Theorem C18_rebinding_resolves_to_self : forall L m md k n old,
+  nth_error L m = Some md -> lookup_e (cname n) (fst (visit md)) = Some old -> e_bind old = BDef k ->
+  (forall line m', In (line, m') (snd (visit md)) ->
+     line <= e_line old \/ match nth_error L m' with Some md' => hidden md' (cname n) = true | None => True end) ->
+  self_resolved true L m k n = true.
+Proof. exact rebinding_resolves_to_self. Qed.
+Print Assumptions C18_rebinding_resolves_to_self.
+Theorem C18_rebinding_computed :
+  self_resolved true L_rebind_same 0 1 0 = true /\ base_resolves true L_rebind_same 0 0 = false /\ self_resolved true L_rebind_same 0 2 0 = false /\
+  self_resolved true L_rebind_import 2 1 0 = true /\ base_resolves true L_rebind_import 2 0 = false /\
+  self_resolved true L_from 2 1 0 = false /\ base_resolves true L_from 2 0 = true.
+Proof. exact rebinding_computed. Qed.
+Print Assumptions C18_rebinding_computed.
 (* were on_package_loaded fired before expand_wildcards, bases arriving by star import would not resolve *)
 Theorem C18_event_must_follow_wildcards :
   base_resolves false L_wild 2 0 = false /\ base_resolves false L_all 2 0 = false /\ base_resolves false L_reexport 2 0 = false /\
